@@ -208,18 +208,27 @@ where
         stmt.query_row([event_id], |row| row.try_into())
     }
 
-    /// Delete an event from the database table.
+    /// Delete the most recent event with the given commit hash
+    /// from the event log owned by an account or folder.
     pub fn delete_one(
         &self,
         log_type: EventLogType,
+        account_or_folder_id: i64,
         commit_hash: &CommitHash,
     ) -> Result<(), SqlError> {
         let table: EventTable = log_type.into();
+        // Commit hashes are not unique; identical events may
+        // exist in other event logs in the same table and more
+        // than once in the same event log
         let query = sql::Delete::new()
             .delete_from(table.as_str())
-            .where_clause("commit_hash = ?1");
+            .where_clause(&format!(
+                "event_id = (SELECT MAX(event_id) FROM {} WHERE commit_hash = ?1 AND {} = ?2)",
+                table.as_str(),
+                table.id_column(),
+            ));
         let mut stmt = self.conn.prepare_cached(&query.as_string())?;
-        stmt.execute([commit_hash.as_ref()])?;
+        stmt.execute((commit_hash.as_ref(), account_or_folder_id))?;
         Ok(())
     }
 
